@@ -349,15 +349,18 @@ namespace AIToolbox {
         // number of elements we iterate over is alphasSize + S.
         SubsetEnumerator enumerator(S - 1, 0ul, alphasSize + S);
 
-        // This is the matrix on the left side of Ax = b (where A is m)
+        // This is the matrix on the left side of Ax = b (where A is m). Row 0
+        // is the new plane, rows 1..S-1 are one per element of the subset
+        // (either a plane, or a simplex boundary x_d = 0), and row S says that
+        // the point is in the simplex (its coordinates sum to one).
         Matrix2D m(S + 1, S + 1);
         m.row(0)[S] = -1; // First row is always a vector
-
-        Vector boundary(S+1);
-        boundary[S] = 0.0; // The boundary doesn't care about the value
+        m.row(S).head(S).fill(1.0);
+        m.row(S)[S] = 0.0; // The simplex row doesn't care about the value
 
         // This is the vector on the right side of Ax = b
         Vector b(S+1); b.setZero();
+        b[S] = 1.0;
 
         Vector result(S+1);
 
@@ -371,10 +374,7 @@ namespace AIToolbox {
             // Get subset of planes, find corner with LU
             size_t last = 0;
             while (enumerator.isValid()) {
-                // Reset boundaries to care about all dimensions
-                boundary.head(S).fill(1.0);
-                size_t counter = last + 1;
-                // Note that we start from last to avoid re-copying vectors
+                // Note that we start from last to avoid re-copying rows
                 // that are already in the matrix in their correct place.
                 for (auto i = last; i < enumerator->size(); ++i) {
                     // For each value in the enumerator, if it is less than
@@ -383,27 +383,30 @@ namespace AIToolbox {
                     const auto index = (*enumerator)[i];
                     if (index < alphasSize) {
                         // Copy the right vector in the matrix.
-                        m.row(counter).head(S) = std::invoke(p2, *std::next(alphasBegin, index));
-                        m.row(counter)[S] = -1;
-                        ++counter;
+                        m.row(i + 1).head(S) = std::invoke(p2, *std::next(alphasBegin, index));
+                        m.row(i + 1)[S] = -1;
                     } else {
-                        // We limit the index-th dimension (minus alphasSize to scale in a 0-S range)
-                        boundary[index - alphasSize] = 0.0;
+                        // We limit the index-th dimension (minus alphasSize to
+                        // scale in a 0-S range): the vertex must lie on that
+                        // boundary of the simplex, i.e. x_d = 0.
+                        m.row(i + 1).setZero();
+                        m.row(i + 1)[index - alphasSize] = 1.0;
                     }
                 }
-                m.row(counter) = boundary;
-                b[counter] = 1.0;
-                ++counter;
 
-                // Note that we only need to consider the first "counter" rows,
-                // as the boundaries get merged in a single one.
-                result = m.topRows(counter).colPivHouseholderQr().solve(b.head(counter));
+                result = m.colPivHouseholderQr().solve(b);
 
-                b[counter-1] = 0.0;
+                // Coordinates we have forced on a boundary are exactly zero.
+                for (size_t i = 0; i < enumerator->size(); ++i)
+                    if ((*enumerator)[i] >= alphasSize)
+                        result[(*enumerator)[i] - alphasSize] = 0.0;
 
-                // Add to found only if valid, otherwise skip.
+                // Add to found only if valid, otherwise skip. When the planes
+                // do not meet on this face the system is singular and QR
+                // returns a point that does not solve it: that is no vertex.
                 const double max = result.head(S).maxCoeff();
-                if ((result.head(S).array() >= 0).all() && (max < 1.0) && checkDifferentSmall(max, 1.0)) {
+                if ((result.head(S).array() >= 0).all() && (max < 1.0) && checkDifferentSmall(max, 1.0) &&
+                    (m * result - b).cwiseAbs().maxCoeff() < equalToleranceSmall) {
                     vertices.first.emplace_back(result.head(S));
                     vertices.second.emplace_back(result[S]);
                 }
